@@ -275,6 +275,7 @@ class Engine:
         self.concrete = concrete
         self.opaque_calls = opaque_calls
         self.n_feas = 0
+        self._opq_ints = {}
         self.dropped = []
         self.class_fields = {}
 
@@ -408,6 +409,13 @@ class Engine:
             if p is not None:
                 self.oblige(p, f"{self.cur_func}.no_arith_with_None", "safety", z3.Not(v.isnone), node)
             return self.as_int(v.val, p, node)
+        if isinstance(v, Opaque):
+            # an opaque value used as a number: an unconstrained integer, the same one for the same opaque value
+            key = ("as_int", str(v.tag))
+            store = p.opq if p is not None else self._opq_ints
+            if key not in store:
+                store[key] = self.fresh_int("opaque_int")
+            return store[key]
         raise Unsupported(f"as_int {type(v).__name__}")
 
     # ---- truthiness ----
@@ -655,6 +663,8 @@ class Engine:
             return v.items
         if isinstance(v, Custom) and hasattr(v.h, "unpack"):
             return v.h.unpack(self, p, n)
+        if isinstance(v, Opaque):
+            return [Opaque((v.tag, "part", k)) for k in range(n)]      # havoc: sound
         raise Unsupported(f"unpack {type(v).__name__}")
 
     def s_If(self, st, p):
@@ -1102,7 +1112,7 @@ class Engine:
                 return self.fresh("cmp_none", z3.BoolSort())
             if isinstance(v, Opt):
                 self.oblige(p, f"{self.cur_func}.no_compare_with_None@L{node.lineno}", "safety", z3.Not(v.isnone), node)
-        x, y = self.as_int(a if not isinstance(a, Opt) else a.val), self.as_int(b if not isinstance(b, Opt) else b.val)
+        x, y = self.as_int(a if not isinstance(a, Opt) else a.val, p), self.as_int(b if not isinstance(b, Opt) else b.val, p)
         return {ast.Lt: x < y, ast.LtE: x <= y, ast.Gt: x > y, ast.GtE: x >= y}[type(op)]
 
     def identical(self, a, b, p):
@@ -1280,6 +1290,8 @@ class Engine:
             raise Unsupported("pointer arithmetic")
         if isinstance(a, Custom) and hasattr(a.h, "binop"):
             return a.h.binop(self, p, op, b, node)
+        if isinstance(op, ast.Add) and (isinstance(a, (BytesV, View)) or isinstance(b, (BytesV, View))) and "bytes+" in self.handlers:
+            return self.handlers["bytes+"](self, p, a, b, node)
         if isinstance(a, Str) and isinstance(op, ast.Mod) and "str%" in self.handlers:
             r = self.handlers["str%"](self, p, a, b, node)
             if r is not None:
